@@ -6,6 +6,8 @@ from . import simple as SP
 from . import grammar as GR
 from . import fold as FD
 from . import feat as FT
+from . import searcher as SR
+from . import threads as TH
 
 CHECKS = {}
 
@@ -310,6 +312,16 @@ def c15(tier, replay):
     return FT.check_c15(tier, replay)
 
 
+@check("C20")
+def c20(tier, replay):
+    return SR.check_c20(tier, replay)
+
+
+@check("C19")
+def c19(tier, replay):
+    return TH.check_c19(tier, replay)
+
+
 @check("C08")
 def c08(tier, replay):
     return GR.check_c08(tier, replay)
@@ -409,6 +421,9 @@ def setup():
         C.build_runner()
         C.build_runner(profile="checked")
         FD.build_oracle()
+        for var in FT.VARIANTS:
+            C.build_runner(variant=var)
+        C.build_runner(variant="f-pattern", nightly=True)
         for f in sorted(os.listdir(C.SPEC)):
             if f.endswith(".tla"):
                 p = subprocess.run(["tla-sany", f], cwd=C.SPEC, stdout=subprocess.PIPE, stderr=subprocess.STDOUT, text=True)
